@@ -158,7 +158,8 @@ class CSSCharsetRule(cssrule.CSSRule):
                 # is a codec but not one) other than the css codec itself
                 if codecs.lookup(encoding).name == 'css':
                     raise LookupError(encoding)
-                ' '.encode(encoding, 'escapecss')
+                # test the name as it is kept ("İ".lower() is not ASCII "i")
+                ' '.encode(encoding.lower(), 'escapecss')
             except (LookupError, ValueError):
                 self._log.error(
                     'CSSCharsetRule: Unknown (Python) encoding %r.' % encoding
